@@ -28,6 +28,7 @@ package service
 // with their recorded deposits, which the deposit escrow must still back on the restarted chain: C07, C12).
 //@ func PrepForZeroHeightGenesis(ctx, k)
 //@   property C07, C12
+//@   requires keeper.reqFeesNonneg
 //@   modifies bal, contexts
 //@   ensures deposit_escrow_kept: forall d:Str :: bal(keeper.DEP, d) >= old(bal(keeper.DEP, d))
 //@ end
